@@ -153,7 +153,8 @@ def tree_hash(variant_key, harness=None):
     hd = os.path.join(verif, "harness")
     files = _walk(os.path.join(repo, "src")) + [os.path.join(repo, "Cargo.toml"), os.path.join(repo, "Cargo.lock"),
              os.path.join(verif, "vlib", "overlay.py"), os.path.join(verif, "vlib", "shapes.py")]
-    common = sorted(f for f in os.listdir(hd) if f.endswith(".rs") and not f.startswith("h_"))
+    # mods.rs only lists the harness modules: adding one does not change any other harness's verdict
+    common = sorted(f for f in os.listdir(hd) if f.endswith(".rs") and not f.startswith("h_") and f != "mods.rs")
     files += [os.path.join(hd, f) for f in common]
     if harness is None:
         files += [os.path.join(hd, f) for f in sorted(os.listdir(hd)) if f.startswith("h_")]
